@@ -75,6 +75,12 @@ class EvaluationMapper(EvaluationMapperBase):
             # raises UnknownVariableError
             return super().map_variable(expr)
 
+    def map_sum(self, expr):
+        # The built-in sum() (used by the base class) adds floats with
+        # compensated summation from Python 3.12 on. Generated code adds
+        # the terms one after the other, so do the same here.
+        return reduce(operator.add, (self.rec(child) for child in expr.children))
+
     def map_generic_call(self, function_name, parameters, kw_parameters):
         if function_name in self.functions:
             function = self.functions[function_name]
